@@ -185,11 +185,11 @@ def run(check, an: Analysis):
             call = path.events[sched[0]].node
             made = [e for e in path.events[:sched[0]] if e.kind == 'call'
                     and isinstance(e.node, ast.Call)
-                    and ast.unparse(e.node.func) == 'CancelTask']
+                    and rules.text_at(path, e, e.node.func) == 'CancelTask']
             appended = [i for i, e in enumerate(path.events[:sched[0]])
                         if e.kind == 'call' and isinstance(e.node, ast.Call)
                         and isinstance(e.node.func, ast.Attribute)
-                        and ast.unparse(e.node.func) == 'self._cancellations.append']
+                        and rules.text_at(path, e, e.node.func) == 'self._cancellations.append']
             undated = not any(kw.arg in ('delay', 'at') for kw in call.keywords)
             target_ok = bool(call.args) and ast.unparse(call.args[0]) == 'self.__runner__'
             sig = [kw.value for kw in call.keywords if kw.arg == 'signal'] or call.args[1:2]
